@@ -671,3 +671,6 @@ _WL_NEW = """        ranked = list(pareto_front[0])
 """
 M("C02", "worklist-lifo", "operators.py", _WL_OLD, _WL_NEW % "")
 M("C02", "worklist-fifo-quiet", "operators.py", _WL_OLD, _WL_NEW % "0", expect="Q")
+
+M("C11", "view-read-only-uri", "datastore.py", "                else:\n                    conn = sqlite3.connect(self.database_name)\n            except sqlite3.Error as e:",
+  "                else:\n                    conn = sqlite3.connect('file:' + self.database_name + '?mode=ro', uri=True)\n            except sqlite3.Error as e:")
